@@ -59,6 +59,8 @@ func c04MutantNamed(name string) Mutant {
 }
 
 var c04Mutants = []Mutant{
+	{Name: "bgp-handler-sorts-the-callers-addresses", File: "speaker/bgp_controller.go",
+		Old: "\tc.svcAds[name] = nil\n\tfor _, lbIP := range lbIPs {", New: "\tc.svcAds[name] = nil\n\tsort.SliceStable(lbIPs, func(i, j int) bool { return lbIPs[i].To4() != nil && lbIPs[j].To4() == nil })\n\tfor _, lbIP := range lbIPs {", Expect: "ADDRESSES-READONLY"},
 	{Name: "lone-speaker-reports-membership-disabled", File: "internal/speakerlist/speakerlist.go",
 		Old: "\tactiveNodes := map[string]bool{}\n\tfor _, n := range sl.ml.Members() {", New: "\tif sl.ml.NumMembers() <= 1 {\n\t\treturn SpeakerListInfo{Disabled: true}\n\t}\n\tactiveNodes := map[string]bool{}\n\tfor _, n := range sl.ml.Members() {", Expect: "MEMBERSHIP"},
 	{Name: "members-named-like-me-skipped", File: "internal/speakerlist/speakerlist.go",
@@ -106,6 +108,7 @@ var c04Mutants = []Mutant{
 }
 
 func runC04(p *chk.Prog, r *chk.Report) {
+	handlerReadonlyRule(p, r)
 	c09Exit(p, r)
 	membershipRule(p, r)
 	nodeExclusionRule(p, r)
@@ -122,6 +125,9 @@ func runC04(p *chk.Prog, r *chk.Report) {
 }
 
 func runC12(p *chk.Prog, r *chk.Report) {
+	// advertisements attached to a pool are de-duplicated by equality, not by inclusion (ADV-DEDUP, shared with C08)
+	c08Dedup(p, r)
+	handlerReadonlyRule(p, r)
 	// the addresses the election is keyed on are the ones in the Service status (IP-CHANGE, shared with C09)
 	c09Exit(p, r)
 	membershipRule(p, r)
@@ -1453,4 +1459,52 @@ func c04PoolNodeSet(f *chk.Fn, g *chk.Graph, m types.Object, pool func(ast.Expr)
 		}
 	}
 	return true
+}
+
+// handlerReadonlyRule (C12, C04, C09): the address list of a Service is handed to every protocol handler in turn; a
+// handler that reorders or edits it in place changes what the next handler - the layer-2 election keyed on element 0 -
+// sees, and only on the speakers where the first handler got that far.
+func handlerReadonlyRule(p *chk.Prog, r *chk.Report) {
+	x := r.Rule("ADDRESSES-READONLY", "D ownership", "in package speaker no function stores into an element of a []net.IP parameter, sorts / reverses it in place, or appends to it in place: the list belongs to the caller (controller.SetBalancer hands the same slice to the BGP and the layer-2 handler)", 6)
+	n := 0
+	inPlace := map[string]bool{"sort.Slice": true, "sort.SliceStable": true, "sort.Sort": true, "sort.Stable": true, "slices.Sort": true, "slices.SortFunc": true, "slices.SortStableFunc": true, "slices.Reverse": true}
+	for _, f := range p.FuncsIn("speaker") {
+		if f.Body == nil || f.Lit != nil {
+			continue
+		}
+		for i := 0; ; i++ {
+			pv := f.Param(i)
+			if pv == nil {
+				break
+			}
+			sl, isSl := pv.Type().Underlying().(*types.Slice)
+			if !isSl || sl.Elem().String() != "net.IP" {
+				continue
+			}
+			n++
+			r.Saw(f)
+			var bad ast.Node
+			ast.Inspect(f.Body, func(nd ast.Node) bool {
+				switch y := nd.(type) {
+				case *ast.AssignStmt:
+					for _, l := range y.Lhs {
+						if ix, isIx := ast.Unparen(l).(*ast.IndexExpr); isIx && f.ObjOf(ix.X) == types.Object(pv) {
+							bad = y
+						}
+					}
+				case *ast.CallExpr:
+					if fo, isF := f.Callee(y).(*types.Func); isF && inPlace[fo.FullName()] && len(y.Args) >= 1 && f.ObjOf(y.Args[0]) == types.Object(pv) {
+						bad = y
+					}
+				}
+				return true
+			})
+			pos := f.Pos()
+			if bad != nil {
+				pos = bad.Pos()
+			}
+			x.Check(f.Name()+":"+pv.Name(), pos, bad == nil, "", "the caller's address list is reordered or edited in place: the handlers that run after this one see another first address, and the layer-2 election - keyed on the first address - then differs between the speakers on which this handler ran and the others")
+		}
+	}
+	_ = n
 }
